@@ -165,7 +165,14 @@ where
     #[cfg(feature = "std")]
     fn chunks_vectored<'a>(&'a self, dst: &mut [IoSlice<'a>]) -> usize {
         let mut n = self.a.chunks_vectored(dst);
-        n += self.b.chunks_vectored(&mut dst[n..]);
+        // `b`'s chunks may only follow once everything that remains of `a` has
+        // been placed in `dst`: `a` is allowed to report only some of its
+        // chunks (the default implementation reports one), and skipping the
+        // rest of `a` would hand out bytes out of order.
+        let a_len: usize = dst[..n].iter().map(|s| s.len()).sum();
+        if a_len == self.a.remaining() {
+            n += self.b.chunks_vectored(&mut dst[n..]);
+        }
         n
     }
 
